@@ -1398,8 +1398,11 @@ func (c *Cluster) pin(
 		return pin, false, errors.New("bad pin object")
 	}
 
-	// Handle pin updates when the option is set
-	if update := pin.PinUpdate; update != cid.Undef && !update.Equals(pin.Cid) {
+	// Handle pin updates when the option is set. Not when re-pinning
+	// away from a peer (blacklist set): the pin exists already and must
+	// be re-allocated keeping its own options, rather than copying again
+	// the allocations and options of the pin it was updated from.
+	if update := pin.PinUpdate; update != cid.Undef && !update.Equals(pin.Cid) && len(blacklist) == 0 {
 		pin, err := c.PinUpdate(ctx, update, pin.Cid, pin.PinOptions)
 		return pin, true, err
 	}
